@@ -196,7 +196,8 @@ pub(crate) fn recv_timeout_sync<T: Send>(
       // overflowed (deadline == None) treat it as "effectively forever".
       Some(_) => {
         if let Some(id) = my_id.take() {
-          shared.unregister(Role::Recv, id);
+          // woken for an item just as the deadline passed: hand the wake on
+          shared.cancel_wait(Role::Recv, id);
         }
         return Err(RecvErrorTimeout::Timeout);
       }
